@@ -932,7 +932,7 @@ class Pregex():
                 pattern = self.__pattern
             if name is not None:
                 if pattern.startswith('(?P'):
-                    pattern = _re.sub('\(\?P<[^>]*>', f'(?P<{name}>', pattern)
+                    pattern = _re.sub('\(\?P<[^>]*>', f'(?P<{name}>', pattern, count=1)
                 else:
                     pattern = f"(?P<{name}>{pattern[1:-1]})"
         else:
@@ -963,7 +963,7 @@ class Pregex():
         elif self.__type == _Type.Group and not self.__pattern.startswith(('(?(', '(?P=')):
             if self.__pattern.startswith('(?P'):
                 # Remove name from named capturing group.
-                pattern = _re.sub('\(\?P<[^>]*>', f'(?:', str(self))
+                pattern = _re.sub('\(\?P<[^>]*>', f'(?:', str(self), count=1)
             elif self.__pattern.startswith('(?'):
                 # Remove any possible flags from non-capturing group.
                 pattern = _re.sub(
